@@ -163,6 +163,59 @@ func checkC12(p *Prog, r *Report) {
 			r.unresolved(rule, "file-creating calls in "+w.Name())
 		}
 	}
+	// the staging area starts empty: what an earlier store that died left under the temp name must not be merged into
+	{
+		rl := "E5.staging-starts-empty"
+		// summary of ensureStoreReady: every nil-error return has passed RemoveAll(its path parameter)
+		clears := false
+		if esr := a.ensureStoreReady; esr != nil && len(esr.Params) > 0 {
+			pathPrm := esr.Params[len(esr.Params)-1]
+			isRm := func(j ssa.Instruction) bool {
+				c, ok := j.(*ssa.Call)
+				return ok && isCallTo(c, "fs.RemoveAll", "os.RemoveAll") && derivesFromValue(c.Call.Args[0], pathPrm)
+			}
+			clears = true
+			n := 0
+			for _, rc := range returnCases(esr, 0) {
+				if !isNilConst(rc.Vals[0]) {
+					continue
+				}
+				n++
+				if existsPath(esr, nil, rc.Ret, isRm) {
+					clears = false
+				}
+			}
+			if n == 0 {
+				clears = false
+			}
+		}
+		nL := 0
+		eachInstr(a.storeFile, false, func(_ *ssa.Function, i ssa.Instruction) {
+			c, ok := i.(*ssa.Call)
+			if !ok || !isCallTo(c, "fs.RecursiveLink", "fs.RecursiveCopy") {
+				return
+			}
+			nL++
+			dst := c.Call.Args[1]
+			prepared := false
+			eachInstr(a.storeFile, false, func(_ *ssa.Function, j ssa.Instruction) {
+				cj, ok := j.(*ssa.Call)
+				if !ok || !instrDominates(cj, c) {
+					return
+				}
+				if callsFn(cj, a.ensureStoreReady) && clears && cj.Call.Args[len(cj.Call.Args)-1] == dst {
+					prepared = true
+				}
+				if isCallTo(cj, "fs.RemoveAll", "os.RemoveAll") && cj.Call.Args[0] == dst {
+					prepared = true
+				}
+			})
+			r.check(prepared, rl, "storeFile clears the staging path before linking into it", p.pos(c.Pos()), fnName(a.storeFile), "RecursiveLink(out, staged) is dominated by a successful ensureStoreReady(staged), which removes what is there", "an output is linked into the staging directory without first removing what an earlier, interrupted store left there: the link of a leftover symlink fails with EEXIST, the walk stops, storeFile only logs it, and the incomplete staging tree is renamed into place and retrieved as a hit")
+		})
+		if nL == 0 {
+			r.unresolved(rl, "RecursiveLink into the staging directory in storeFile")
+		}
+	}
 	// the rename is last and unique; final path otherwise only marked / removed before
 	var renames []*ssa.Call
 	eachInstr(a.store, false, func(_ *ssa.Function, i ssa.Instruction) {
